@@ -64,7 +64,7 @@ class Space:
       self.names.append(f'{name}[{i}]' if n > 1 else name)
       self.lo.append(float(lo[i]))
       self.hi.append(float(hi[i]))
-    codes = np.arange(start + 1, start + n + 1, dtype=np.int64)
+    codes = np.arange(start + 1, start + n + 1, dtype=np.int64) << (self.bits * (self.maxdeg - 1))
     cols = self.intern(codes)
     self.var_cols.extend(cols.tolist())
     if self._series_name is not None and name == self._series_name:
@@ -684,3 +684,65 @@ def atom_apply(kind: str, arg: PolyArr, extra=None) -> PolyArr:
   vals_all = np.where(is_const_row, out_const, 1.0)
   Mo = sps.csr_matrix((vals_all, (rows, cols_all)), shape=(n, sp.ncols))
   return PolyArr(arg.shape, Mo, sp)
+
+
+def clear_recip(X: PolyArr, max_rounds: int = 8):
+  """Eliminates reciprocal atoms r = 1/d from X by multiplying the rows that contain r with d
+  (sound when d != 0 on the box — the caller discharges that obligation).
+
+  Returns (X', factor_bound) where X' has the same zero set as X and factor_bound[i] bounds the
+  absolute value of the multiplier applied to row i from BELOW over the box (|p| <= tau follows
+  from |p d| <= tau min|d|); 0 if some d is not sign-definite by interval arithmetic.
+  """
+  sp = X.sp
+  fac = np.ones(X.size)
+  for _ in range(max_rounds):
+    M = _csr(X._aligned()); M.sum_duplicates()
+    cols = np.unique(M.indices[M.data != 0])
+    if not len(cols):
+      break
+    slots = sp.slots(sp.codes[cols])
+    progressed = False
+    for a in sp.atoms:
+      if a['kind'] != 'recip':
+        continue
+      v = a['var'] + 1
+      cnt = (slots == v).sum(axis=1)
+      if not cnt.any():
+        continue
+      progressed = True
+      hit_cols = cols[cnt > 0]
+      # column maps
+      is_hit = np.zeros(M.shape[1], bool); is_hit[hit_cols] = True
+      # new code with one occurrence of v removed
+      hs = sp.slots(sp.codes[hit_cols])
+      first = np.argmax(hs == v, axis=1)
+      hs2 = hs.copy()
+      hs2[np.arange(len(hs2)), first] = 0
+      hs2 = -np.sort(-hs2, axis=1)
+      newcols = sp.intern(sp.pack(hs2))
+      colmap = np.arange(sp.ncols, dtype=np.int64)
+      M = _csr(X._aligned())
+      coo = M.tocoo()
+      hitmask = is_hit[coo.col]
+      rows_with = np.zeros(M.shape[0], bool); rows_with[np.unique(coo.row[hitmask])] = True
+      lookup = np.zeros(M.shape[1], dtype=np.int64); lookup[hit_cols] = newcols
+      # part with r (r removed)
+      Mw = sps.csr_matrix((coo.data[hitmask], (coo.row[hitmask], lookup[coo.col[hitmask]])), shape=(M.shape[0], sp.ncols))
+      # part without r
+      keep = ~hitmask
+      Mo = sps.csr_matrix((coo.data[keep], (coo.row[keep], coo.col[keep])), shape=(M.shape[0], sp.ncols))
+      Xo = PolyArr((X.size,), Mo, sp)
+      d = a['arg']                       # 1-element PolyArr
+      sel = sps.diags(rows_with.astype(float))
+      Xo_sel = PolyArr((X.size,), _csr(sel @ Mo), sp)
+      Xo_rest = PolyArr((X.size,), _csr(sps.diags((~rows_with).astype(float)) @ Mo), sp)
+      dd = d.take(np.zeros(X.size, dtype=np.int64))
+      Xn = PolyArr((X.size,), Mw, sp).add(Xo_sel.mul(dd)).add(Xo_rest)
+      dmin = min(abs(a['arg_lo']), abs(a['arg_hi'])) if a['arg_lo'] * a['arg_hi'] > 0 else 0.0
+      fac = np.where(rows_with, fac * dmin, fac)
+      X = PolyArr(X.shape, Xn.M, sp)
+      break
+    if not progressed:
+      break
+  return X, fac.reshape(X.shape)
